@@ -234,6 +234,34 @@ rc::Gen<Case> gen_case(const vf::Options&) {
         long na = gen_common(c, 1, 4, 0, true);
         c.cfg.push_back(*vf::range(0, 1));
         long nv = c.cfg[0];
+        if (*vf::range(0, 5) == 0) {
+            // family "standby mix": vCPU 1 steals actively and keeps waking up (its idle thread tries to steal each time it goes
+            // to sleep), vCPU 2 may be stolen from and mostly sleeps.  An actor on vCPU 0 parks a stealable sleeper on vCPU 2,
+            // then sends a second stealable child there (migrated threads wait in the target's standby queue) and interrupts the
+            // sleeper from outside (it joins the standby queue behind it while still being in its owner's sleep queue).
+            c.cfg[0] = 3; c.cfg[1] = *vf::range(0, 1); c.cfg[2] = 1 + 2 * *vf::range(0, 1); c.cfg[3] = 2 + *vf::range(0, 1);
+            c.S("actor").clear();
+            c.S("actor").push_back({0, 0}); c.S("actor").push_back({1, 0});
+            long extra = *vf::range(0, 1);
+            if (extra) c.S("actor").push_back({2, 0});
+            auto& a = c.S("a0");
+            long d = *vf::range(2000, 9000);
+            a.push_back({OP_SPAWN, VIA_CREATE, 1, 1, 0, 0, 1, d, 0, 0});                      // child#0: yield; sleep(d); yield
+            a.push_back({OP_MIGC, 0, 2});
+            a.push_back({OP_SLEEP, *vf::range(20, 200)});
+            long nmig = *vf::range(1, 2);
+            for (long k = 0; k < nmig; k++) { a.push_back({OP_SPAWN, VIA_CREATE, 1, 1, 0, 0, 1, *vf::range(0, 50)}); a.push_back({OP_MIGC, 1 + k, 2}); }
+            a.push_back({OP_INTC, 0, *vf::range(0, 2)});
+            if (*vf::range(0, 1)) a.push_back({OP_YIELD});
+            a.push_back({OP_SLEEP, *vf::range(100, 600)});
+            for (long k = 0; k <= nmig; k++) a.push_back({OP_JOIN, k});
+            auto& b = c.S("a1");
+            long nb = *vf::range(4, 12);
+            for (long k = 0; k < nb; k++) b.push_back({OP_SLEEP, *vf::range(5, 80)});
+            if (extra) { auto& e = c.S("a2"); long ne = *vf::range(1, 3); for (long k = 0; k < ne; k++) e.push_back({*vf::range(0, 1) ? (long)OP_YIELD : (long)OP_SLEEP, *vf::range(1, 300)}); }
+            c.S("sched") = *gen_schedule(80);
+            return c;
+        }
         for (long i = 0; i < na; i++) {
             long n = *vf::range(1, 6);
             auto& prog = c.S("a" + std::to_string(i));
